@@ -17,6 +17,7 @@ FINDING_DEV = {
     "KF-C13-06": "Xls!HeaderOnlySheetEmpty",
     "KF-C13-07": "Xls!HeaderKeyCollision",
     "KF-C13-08": "Xls!ErrorCellNone",
+    "KF-C13-09": "Ods!LargeGapCollapsed",
 }
 
 TABLE_FORMATS = {"docx", "odt", "html", "mhtml", "epub", "rtf", "pptx", "odp", "xlsx", "ods", "xls"}
@@ -155,6 +156,235 @@ def typed_values(ctx):
         ctx.ev.sample({"typed_row": traces[len(traces) // 2]["id"], "observed": traces[len(traces) // 2]["raw"]})
 
 
+# ----------------------------------------------------------------------------- XLSX sheet reader: algorithm model
+SHEET_DEV = {"KF-C13-01": "Xlsx!HeaderPlaceholder", "KF-C13-03": "Xlsx!TableNameRowSkipped"}
+
+
+def _sheet_cell(v):
+    """A value seen / returned by the sheet reader -> model cell <<kind, n>> (SheetWalkDefs)."""
+    import re
+    from ..docmodel import TOKEN_RE
+    if v is None:
+        return ["none", 0]
+    if isinstance(v, bool):
+        return ["bool", int(v)]
+    if isinstance(v, (int, float)):
+        return ["num", int(v * 2)] if float(v * 2).is_integer() and abs(v) < 10**6 else ["other", 0]
+    if isinstance(v, str):
+        if v.strip() == "":
+            return ["ws", 0]
+        m = TOKEN_RE.fullmatch(v)
+        if m:
+            return ["tok", int(m.group(1) or m.group(2) or m.group(3))]
+        m = re.fullmatch(r"Unnamed: (\d+)", v)
+        if m:
+            return ["unn", int(m.group(1))]
+        if v in ("True", "False"):
+            return ["boolstr", int(v == "True")]
+        try:
+            f = float(v)
+            return ["numstr", int(f * 2)] if float(f * 2).is_integer() else ["other", 0]
+        except ValueError:
+            return ["other", 0]
+    return ["other", 0]
+
+
+def _sheet_walk_job(grids):
+    """grids: list of model grids (one sheet each) -> per sheet {src, all, data} as the real reader saw / produced them.
+    The reader is observed through a wrapper around xlsx_extractor._read_sheet_data installed here (no source hook)."""
+    import io
+    from ..docrun import render
+    from ..repo import activate
+    activate()
+    import warnings
+    warnings.simplefilter("ignore")
+    import sharepoint2text
+    from sharepoint2text.parsing.extractors.ms_modern import xlsx_extractor as mod
+    conv = {"none": lambda c: None, "ws": lambda c: ["str", "  "], "tok": lambda c: ["s", c[1]], "num": lambda c: ["n", c[1] / 2],
+            "bool": lambda c: ["b", c[1]]}
+    book = {"kind": "book", "sheets": [{"name": f"S{k}", "rows": [[conv[c[0]](c) for c in row] for row in g]}
+                                       for k, g in enumerate(grids, start=1)]}
+    orig = getattr(mod, "_read_sheet_data", None)
+    if orig is None:
+        return {"skip": "xlsx_extractor has no _read_sheet_data"}
+    log = []
+
+    def wrapper(ws):
+        src = [list(r) for r in ws.iter_rows(values_only=True)]
+        out = orig(ws)
+        log.append((src, out[1]))
+        return out
+    mod._read_sheet_data = wrapper
+    try:
+        r = next(sharepoint2text.read_xlsx(io.BytesIO(render(book, "xlsx")), "w.xlsx"))
+    except Exception as e:
+        return {"exc": f"{type(e).__name__}: {e}"[:200]}
+    finally:
+        mod._read_sheet_data = orig
+    if len(log) != len(grids) or len(r.sheets) != len(grids):
+        return {"exc": f"{len(grids)} sheets written, reader called {len(log)} times, {len(r.sheets)} sheets returned"}
+    out = []
+    for (src, allr), sh in zip(log, r.sheets):
+        out.append({"src": [[_sheet_cell(c) for c in row] for row in src],
+                    "all": [[_sheet_cell(c) for c in row] for row in allr],
+                    "data": [[_sheet_cell(c) for c in row] for row in sh.get_table()]})
+    return {"sheets": out}
+
+
+def sheet_walk_model(ctx):
+    """SheetWalk.tla: TLC theorems on the bounded grid universe, sensitivity runs for the as-built steps, and the
+    binding: every grid of the universe is written as a sheet; what the real reader returns is the machine's result."""
+    from concurrent.futures import ProcessPoolExecutor
+    from ..tlaval import iter_dump, to_tla
+    from ..docrun import from_tla
+    from ..tlc import MachineryError, run_tlc
+    from ..traces import validate
+    mr, mc = (3, 3) if ctx.thorough else (2, 3)
+    consts = f" MaxRows = {mr}\n MaxCols = {mc}\n"
+    invs = "".join(f"INVARIANT {i}\n" for i in ("Inv_StepAgreesWithFunction", "Inv_NothingLost", "Inv_NothingInvented", "Inv_Shape"))
+    cfg = f"SPECIFICATION Spec\nCONSTANTS WalkDev = {{}}\n{consts}{invs}PROPERTY Prop_Terminates\n"
+    r = run_tlc("SheetWalk", cfg, scratch=ctx.scratch, expect_fail=True, heap="8g", workers=16, timeout=3000)
+    ctx.ev.tlc(f"SheetWalk {mr}x{mc}: the modelled sheet reader keeps every cell in place and terminates", r)
+    if r.violated:
+        ctx.v.violation(what="SheetWalk.tla: the strict sheet-reader model violates its own theorems", observed=r.output[-1500:])
+    for dv in sorted(SHEET_DEV.values()):
+        rs = run_tlc("SheetWalk", cfg.replace("WalkDev = {}", f'WalkDev = {{"{dv}"}}').replace(f" MaxRows = {mr}", " MaxRows = 2"),
+                     scratch=ctx.scratch, expect_fail=True, heap="8g")
+        ctx.ev.tlc(f"SheetWalk sensitivity: as-built step {dv} must violate a theorem", rs, note="expected violation")
+        if not rs.violated:
+            raise MachineryError(f"SheetWalk sensitivity run for {dv} did not fail")
+    # spec -> code: the grid universe (2 x 3 exhaustively; 3 x 3 sampled in thorough)
+    dump = ctx.scratch / f"sheetgen-{mr}-{mc}.dump"
+    rg = run_tlc("SheetWalk", f"SPECIFICATION GenSpec\nCONSTANTS WalkDev = {{}}\n{consts}", scratch=ctx.scratch, dump=dump, heap="8g")
+    ctx.ev.tlc(f"SheetWalk GenSpec {mr}x{mc}: input grids", rg)
+    grids = sorted((from_tla(st["src"]) for st in iter_dump(dump)), key=lambda g: json.dumps(g))
+    if len(grids) != rg.distinct:
+        raise MachineryError(f"SheetWalk dump {len(grids)} != {rg.distinct}")
+    if len(grids) > 24000:
+        rng = random.Random(ctx.seed)
+        small = [g for g in grids if len(g) <= 2]
+        rest = [g for g in grids if len(g) > 2]
+        rng.shuffle(rest)
+        grids = small + rest[: 24000 - len(small)]
+    grids = [g for g in grids if g]           # a workbook sheet with no rows at all is the empty sheet of DocGen2
+    per = 40
+    books = [grids[k:k + per] for k in range(0, len(grids), per)]
+    with ProcessPoolExecutor(16) as ex:
+        obs = list(ex.map(_sheet_walk_job, books, chunksize=2))
+    traces = []
+    for b, o in zip(books, obs):
+        if "skip" in o:
+            ctx.log("sheet-walk binding skipped: " + o["skip"])
+            return
+        if "exc" in o:
+            ctx.v.violation(what=f"read_xlsx failed on a generated workbook of {len(b)} small sheets: {o['exc']}", case={"grids": b[:3]})
+            continue
+        for g, sh in zip(b, o["sheets"]):
+            want = {(i, j): c for i, row in enumerate(g) for j, c in enumerate(row) if c[0] not in ("none", "ws")}
+            got = {(i, j): c for i, row in enumerate(sh["src"]) for j, c in enumerate(row) if c[0] not in ("none", "ws")}
+            if want != got:
+                raise MachineryError(f"writer / openpyxl disagree on a generated grid: wrote {g}, reader saw {sh['src']}")
+            traces.append({"id": f"sheet:{len(traces)}", "hdr": {"fmt": "xlsx"}, "raw": json.dumps(sh["data"])[:300],
+                           "ev": [dict(sh, a="Sheet")]})
+    dev = {d for fid, d in SHEET_DEV.items() if ctx.v.open_finding(fid)}
+    tcfg = f"SPECIFICATION TraceSpec\nCONSTANTS WalkDev = {to_tla(dev)}\nCONSTRAINT TraceAccept\n"
+    br = validate("SheetWalkTrace", tcfg, traces, scratch=ctx.scratch, parallel=14, min_chunk=300)
+    ctx.ev.tlc_counts(f"SheetWalkTrace: real sheet reader = machine result (WalkDev = {sorted(dev)})", br.distinct, br.states, br.wall_s)
+    for t, tv in zip(traces, br.verdicts):
+        if tv.accepted:
+            ctx.v.ok()
+        else:
+            e = t["ev"][0]
+            ctx.v.violation(what="read_xlsx: the sheet table differs from the algorithm model SheetWalk.tla: rows seen "
+                                 f"{json.dumps(e['src'])[:300]} -> rows returned {json.dumps(e['all'])[:300]}, table {json.dumps(e['data'])[:300]}",
+                            case={"fmt": "xlsx", "event": e}, where="xlsx_extractor.py:_read_sheet_data / _read_content_from_workbook")
+    ctx.ev.replayed(len(traces))
+    for t in traces[:: max(1, len(traces) // 500)]:
+        ctx.ev.nontrivial(("sheetwalk", t["raw"]))
+
+
+# ----------------------------------------------------------------------------- ODS sheet reader: algorithm model
+def _ods_walk_job(sheets):
+    """sheets: list of model sheets (row elements with repeat counts) -> the table read_ods returns for each."""
+    import io
+    from ..docrun import render
+    from ..repo import activate
+    activate()
+    import warnings
+    warnings.simplefilter("ignore")
+    import sharepoint2text
+    conv = {"none": lambda c: None, "tok": lambda c: ["s", c[1]], "num": lambda c: ["n", c[1] / 2]}
+    book = {"kind": "book", "sheets": [
+        {"name": f"S{k}", "rows": [{"repeat": re_["rep"], "cells": [{"repeat": ce["rep"], "cell": conv[ce["v"][0]](ce["v"])}
+                                                                    for ce in re_["cells"]]} for re_ in sh]}
+        for k, sh in enumerate(sheets, start=1)]}
+    try:
+        r = next(sharepoint2text.read_ods(io.BytesIO(render(book, "ods")), "w.ods"))
+        tables = [sh.get_table() for sh in r.sheets]
+    except Exception as e:
+        return {"exc": f"{type(e).__name__}: {e}"[:200]}
+    if len(tables) != len(sheets):
+        return {"exc": f"{len(sheets)} sheets written, {len(tables)} returned"}
+    return {"data": [[[_sheet_cell(c) for c in row] for row in t] for t in tables]}
+
+
+def ods_walk_model(ctx):
+    """OdsWalk.tla: theorems on the bounded universe of repeat structures (Big = 2), sensitivity run for the as-built
+    collapse of long empty runs, and the binding with the reader's real threshold (Big = 100)."""
+    from concurrent.futures import ProcessPoolExecutor
+    from ..tlaval import iter_dump, to_tla
+    from ..docrun import from_tla
+    from ..tlc import MachineryError, run_tlc
+    consts = " MaxRowElems = 2\n MaxCellElems = 2\n"
+    invs = "".join(f"INVARIANT {i}\n" for i in ("Inv_StepAgreesWithFunction", "Inv_NothingLost", "Inv_NothingInvented", "Inv_Rect"))
+    cfg = f"SPECIFICATION Spec\nCONSTANTS WalkDev = {{}}\n Big = 2\n{consts}{invs}PROPERTY Prop_Terminates\n"
+    r = run_tlc("OdsWalk", cfg, scratch=ctx.scratch, expect_fail=True, heap="8g", workers=16, timeout=3000)
+    ctx.ev.tlc("OdsWalk (Big = 2): the modelled ODS reader keeps every source position in place and terminates", r)
+    if r.violated:
+        ctx.v.violation(what="OdsWalk.tla: the strict ODS reader model violates its own theorems", observed=r.output[-1500:])
+    rs = run_tlc("OdsWalk", cfg.replace("WalkDev = {}", 'WalkDev = {"Ods!LargeGapCollapsed"}'), scratch=ctx.scratch,
+                 expect_fail=True, heap="8g")
+    ctx.ev.tlc("OdsWalk sensitivity: the as-built collapse of long empty runs must violate a theorem", rs, note="expected violation")
+    if not rs.violated:
+        raise MachineryError("OdsWalk sensitivity run did not fail")
+    dump = ctx.scratch / "odsgen.dump"
+    rg = run_tlc("OdsWalk", f"SPECIFICATION GenSpec\nCONSTANTS WalkDev = {{}}\n Big = 100\n{consts}", scratch=ctx.scratch, dump=dump, heap="8g")
+    ctx.ev.tlc("OdsWalk GenSpec (Big = 100): input sheets", rg)
+    sheets = sorted((from_tla(st["src"]) for st in iter_dump(dump)), key=lambda g: json.dumps(g, sort_keys=True))
+    if len(sheets) != rg.distinct:
+        raise MachineryError(f"OdsWalk dump {len(sheets)} != {rg.distinct}")
+    sheets = [sh for sh in sheets if sh]
+    cap = 30000 if ctx.thorough else 3000
+    if len(sheets) > cap:
+        rng = random.Random(ctx.seed)
+        small = [sh for sh in sheets if len(sh) <= 1]
+        rest = [sh for sh in sheets if len(sh) > 1]
+        rng.shuffle(rest)
+        sheets = small + rest[: cap - len(small)]
+    per = 40
+    books = [sheets[k:k + per] for k in range(0, len(sheets), per)]
+    with ProcessPoolExecutor(16) as ex:
+        obs = list(ex.map(_ods_walk_job, books, chunksize=2))
+    traces = []
+    for b, o in zip(books, obs):
+        if "exc" in o:
+            ctx.v.violation(what=f"read_ods failed on a generated workbook of {len(b)} small sheets: {o['exc']}", case={"sheets": b[:2]})
+            continue
+        for sh, data in zip(b, o["data"]):
+            traces.append({"id": f"odssheet:{len(traces)}", "hdr": {"fmt": "ods", "doc": {"src": sh}}, "raw": json.dumps(data)[:300],
+                           "ev": [{"a": "OdsSheet", "src": sh, "data": data}]})
+
+    def cfgfn(dev):
+        return f"SPECIFICATION TraceSpec\nCONSTANTS WalkDev = {to_tla(set(dev))}\n Big = 100\nCONSTRAINT TraceAccept\n"
+    validate_with_findings(ctx, "OdsWalkTrace", traces, {"KF-C13-09": "Ods!LargeGapCollapsed"},
+                           lambda t, e: "read_ods: the sheet table differs from the algorithm model OdsWalk.tla: row elements "
+                                        f"{json.dumps(e['src'])[:300]} -> table {json.dumps(e['data'])[:300]}",
+                           lambda t: "ods_extractor.py:_extract_sheet", cfg=cfgfn)
+    ctx.ev.replayed(len(traces))
+    for t in traces[:: max(1, len(traces) // 500)]:
+        ctx.ev.nontrivial(("odswalk", t["raw"]))
+
+
 def run(ctx):
     ev = ctx.ev
     rng = random.Random(ctx.seed)
@@ -179,6 +409,8 @@ def run(ctx):
                            lambda t: f"{t['hdr']['fmt']} table walker")
     ev.replayed(len(traces))
     typed_values(ctx)
+    sheet_walk_model(ctx)
+    ods_walk_model(ctx)
     ev.set(rule="same TLC-enumerated document suite as C02: tables 1..2 x 1..2 with plain / two-paragraph / empty / "
                 "nested-table cells, in lists, content controls and text boxes, on slides; sheets up to 3x3 with empty "
                 "cells; non-trivial = at least one table observed",
